@@ -626,3 +626,29 @@ func (t *threads) FieldSubjects() []*subject {
 }
 
 var configTypes = map[string]bool{"ProxyConfig": true, "ProxiesConfigure": true, "HostIp": true, "PreRouteItem": true}
+
+
+// mutexClass names the mutex of a struct type as lockClass does ("Type.field"): the one field whose type is sync.Mutex or
+// sync.RWMutex, embedded or named; fallback when there is none or several.
+func (w *World) mutexClass(typeName, fallback string) string {
+	n := w.lookupType(typeName)
+	if n == nil {
+		return fallback
+	}
+	st, ok := n.Underlying().(*types.Struct)
+	if !ok {
+		return fallback
+	}
+	found, cnt := "", 0
+	for i := 0; i < st.NumFields(); i++ {
+		ts := types.TypeString(st.Field(i).Type(), nil)
+		if ts == "sync.Mutex" || ts == "sync.RWMutex" {
+			found = typeName + "." + fvName(st.Field(i))
+			cnt++
+		}
+	}
+	if cnt == 1 {
+		return found
+	}
+	return fallback
+}
